@@ -374,6 +374,89 @@ func isNil(a net.Addr) bool {
 	return false
 }
 
+// ---- several connections alive at once -----------------------------------------------------------------------
+
+// multiConnScenario: 2-3 connections with their own headers are accepted by ONE listener and stay open; the
+// addresses and the payload of every connection are read right after its header was parsed and again after
+// all the others were parsed: what a connection reports must not depend on its neighbours (shared buffers!).
+func multiConnScenario(x *explore.X) {
+	type hc struct {
+		raw      []byte
+		src, dst string
+	}
+	a6 := func(i int) []byte { return addr6(fmt.Sprintf("2001:db8::a:%d", i), fmt.Sprintf("2001:db8::b:%d", i), 1000+i, 2000+i) }
+	alphabet := func(i int) []hc {
+		return []hc{
+			{v2(0x21, 0x21, 36, a6(i)), fmt.Sprintf("[2001:db8::a:%d]:%d", i, 1000+i), fmt.Sprintf("[2001:db8::b:%d]:%d", i, 2000+i)},
+			{v2(0x21, 0x11, 12, addr4(fmt.Sprintf("192.0.2.%d", i+1), fmt.Sprintf("198.51.100.%d", i+1), 3000+i, 4000+i)), fmt.Sprintf("192.0.2.%d:%d", i+1, 3000+i), fmt.Sprintf("198.51.100.%d:%d", i+1, 4000+i)},
+			{[]byte(fmt.Sprintf("PROXY TCP6 2001:db8::c:%d 2001:db8::d:%d %d %d\r\n", i, i, 5000+i, 6000+i)), fmt.Sprintf("[2001:db8::c:%d]:%d", i, 5000+i), fmt.Sprintf("[2001:db8::d:%d]:%d", i, 6000+i)},
+			{v2(0x21, 0x22, 43, append(a6(i+10), 0x04, 0x00, 0x04, 9, 9, 9, 9)), fmt.Sprintf("[2001:db8::a:%d]:%d", i+10, 1010+i), fmt.Sprintf("[2001:db8::b:%d]:%d", i+10, 2010+i)},
+			{[]byte(fmt.Sprintf("PROXY TCP4 10.1.1.%d 10.2.2.%d %d %d\r\n", i+1, i+1, 7000+i, 8000+i)), fmt.Sprintf("10.1.1.%d:%d", i+1, 7000+i), fmt.Sprintf("10.2.2.%d:%d", i+1, 8000+i)},
+		}
+	}
+	nconn := 2 + x.ChooseFree("connections-2", 2)
+	n := simnet.New()
+	base, _ := n.Listen("pp.test:3128")
+	pl := &proxyproto.Listener{Listener: base, ReadHeaderTimeout: headerTO}
+	type live struct {
+		conn       net.Conn
+		peer       *simnet.Conn
+		want       hc
+		payload    []byte
+		firstR     string
+		firstL     string
+	}
+	var conns []*live
+	for i := 0; i < nconn; i++ {
+		al := alphabet(i)
+		h := al[x.ChooseFree(fmt.Sprintf("header%d", i), len(al))]
+		peer, err := n.DialFrom(fmt.Sprintf("lb%d.test", i), "pp.test:3128")
+		if err != nil {
+			x.Failf("harness/dial", "%v", err)
+			return
+		}
+		c, err := pl.Accept()
+		if err != nil {
+			x.Failf("harness/accept", "%v", err)
+			return
+		}
+		l := &live{conn: c, peer: peer, want: h, payload: []byte(fmt.Sprintf("payload-of-connection-%d", i))}
+		peer.Write(append(append([]byte{}, h.raw...), l.payload...))
+		ra, la := c.RemoteAddr(), c.LocalAddr() // (the data is in the socket: this parses the header without waiting)
+		if isNil(ra) || isNil(la) {
+			x.Failf("missing-address", "connection %d reports RemoteAddr=%v LocalAddr=%v", i, ra, la)
+			return
+		}
+		l.firstR, l.firstL = ra.String(), la.String()
+		conns = append(conns, l)
+	}
+	x.Check()
+	order := x.ChooseFree("recheck-order", 2)
+	for k := range conns {
+		i := k
+		if order == 1 {
+			i = len(conns) - 1 - k
+		}
+		l := conns[i]
+		ra, la := l.conn.RemoteAddr().String(), l.conn.LocalAddr().String()
+		if ra != l.want.src || la != l.want.dst || l.firstR != l.want.src || l.firstL != l.want.dst {
+			x.Failf("address-changed-by-other-connection", "connection %d of %d: header says %s / %s; reported right after parsing %s / %s; reported after the other connections were parsed %s / %s",
+				i, nconn, l.want.src, l.want.dst, l.firstR, l.firstL, ra, la)
+		}
+		buf := make([]byte, 100)
+		k2, _ := l.conn.Read(buf)
+		if string(buf[:k2]) != string(l.payload) {
+			x.Failf("payload-mismatch/multi-connection", "connection %d read %q, want %q", i, buf[:k2], l.payload)
+		}
+	}
+	x.Outcome(fmt.Sprintf("multi n=%d", nconn))
+	for _, l := range conns {
+		l.peer.Close()
+		l.conn.Close()
+	}
+	base.Close()
+}
+
 // ---- through the whole proxy ---------------------------------------------------------------------------------
 
 func proxyScenario(x *explore.X) {
@@ -439,7 +522,7 @@ func proxyScenario(x *explore.X) {
 
 func TestC08(t *testing.T) {
 	s := explore.NewSuite(t, "C08", "model_checking",
-		"(parser) every header of a 70+ case alphabet (v1 TCP4/TCP6 with minimal..maximal addresses and ports, UNKNOWN bare and 107-byte, over-long lines, bad ports/addresses/signature; v2 every command nibble class x family/protocol byte x lengths 0 / exact / +TLV / 2048 / 2049, wrong version, wrong signature, non-header prefixes) x payload(4) x EVERY segmentation into 2 (quick) / 3 (thorough) segments at all cut positions plus byte-wise delivery, through the real proxyproto.Listener (with connfu) on the simulated network; (stall) every header x EVERY stall offset inside the header with the virtual clock moved to timeout-1ms / +1ms; (proxy) every header through the complete proxy with a PROXY-protocol listener: X-Forwarded-For at the origin, then a well-formed probe client; an independent grammar of the PROXY protocol specification classifies each header as valid / invalid / receiver's choice and gives the addresses; states = quiescent states after each delivered segment")
+		"(parser) every header of a 70+ case alphabet (v1 TCP4/TCP6 with minimal..maximal addresses and ports, UNKNOWN bare and 107-byte, over-long lines, bad ports/addresses/signature; v2 every command nibble class x family/protocol byte x lengths 0 / exact / +TLV / 2048 / 2049, wrong version, wrong signature, non-header prefixes) x payload(4) x EVERY segmentation into 2 (quick) / 3 (thorough) segments at all cut positions plus byte-wise delivery, through the real proxyproto.Listener (with connfu) on the simulated network; (stall) every header x EVERY stall offset inside the header with the virtual clock moved to timeout-1ms / +1ms; (several) 2-3 connections with v2/v1 IPv6 and IPv4 headers (with and without TLVs) accepted by one listener and all kept open, addresses and payload of each re-read after the others were parsed, in both orders; (proxy) every header through the complete proxy with a PROXY-protocol listener: X-Forwarded-For at the origin, then a well-formed probe client; an independent grammar of the PROXY protocol specification classifies each header as valid / invalid / receiver's choice and gives the addresses; states = quiescent states after each delivered segment")
 	s.Assume = []string{"the reference grammar follows haproxy's proxy-protocol.txt; where the specification leaves the choice to the receiver both outcomes are allowed but an accepted connection must report the socket's own addresses", "(concurrent-callers) sync.Mutex/atomic.Bool and the go statement of proxyproto/net.go are redirected at build time to a cooperative scheduler: all interleavings of 2-3 callers of Read/Write/RemoteAddr/LocalAddr on one connection with at most 2 preemptions (2 callers quick, 2-3 callers thorough); unsynchronised accesses are outside this technique (race detector territory)"}
 	run := func(f func(x *explore.X)) func(x *explore.X) {
 		return func(x *explore.X) { world.Run(t, x, func() { f(x) }) }
@@ -447,6 +530,7 @@ func TestC08(t *testing.T) {
 	s.Add(explore.Scenario{Name: "parser-quick", Remote: true, Tiers: []string{"quick"}, MaxDev: map[string]int{"quick": 1}, Run: run(func(x *explore.X) { parserScenario(x, 1, false) })})
 	s.Add(explore.Scenario{Name: "parser-thorough", Remote: true, Tiers: []string{"thorough"}, MaxDev: map[string]int{"thorough": 2}, Run: run(func(x *explore.X) { parserScenario(x, 2, false) })})
 	s.Add(explore.Scenario{Name: "stall", Remote: true, MaxDev: map[string]int{"quick": 0, "thorough": 0}, Run: run(func(x *explore.X) { parserScenario(x, 0, true) })})
+	s.Add(explore.Scenario{Name: "several-connections", Remote: true, Run: run(multiConnScenario)})
 	s.Add(explore.Scenario{Name: "through-proxy", Remote: true, Run: run(proxyScenario)})
 	s.Add(explore.Scenario{Name: "concurrent-callers-quick", Remote: true, Tiers: []string{"quick"}, MaxDev: map[string]int{"quick": 2},
 		Run: func(x *explore.X) { concurrentScenario(t, x, 2) }})
